@@ -3967,7 +3967,7 @@ EGLPNUM_TYPENAME_QSLIB_INTERFACE void EGLPNUM_TYPENAME_QSerror_print (
 	{
 		EGioFile_t*out = EGioOpenFILE(f);
 		EGLPNUM_TYPENAME_ILLformat_error_print (out, error);
-		EGioClose(out);
+		free(out);									/* the stream itself belongs to the caller */
 	}
 }
 
